@@ -63,7 +63,8 @@ class ClassTr:
     """Translates methods of one class (or module-level functions when cls is None)."""
 
     def __init__(self, tree, cls, prefix, ctor_params=None, methods=(), drop_args=('rtol', 'tol'),
-                 known=None, skip_attrs=(), const_attrs=None, extra_np1=None, delegates=None, extra_sources=(), ndim=None):
+                 known=None, skip_attrs=(), const_attrs=None, extra_np1=None, delegates=None, extra_sources=(), ndim=None,
+                 none_args=(), allow_dead=False):
         self.tree = tree
         self.ndim = ndim                     # None | 'scalar' | 'array': which side of `if x.ndim == 0:` is translated
         self.cls = cls
@@ -73,6 +74,8 @@ class ClassTr:
         self.known = dict(known or {})       # external callables: python name -> (coq name, n ctor params to pass?)
         self.skip_attrs = set(skip_attrs)
         self.const_attrs = dict(const_attrs or {})
+        self.none_args = set(none_args)      # optional parameters fixed to None: `if p is None:` is resolved statically
+        self.allow_dead = allow_dead         # untranslatable local assignments are tolerated iff the name is never read by translated code
         self.classes = {n.name: n for n in tree.body if isinstance(n, ast.ClassDef)}
         for p in extra_sources:               # base classes that live in another file (C06: NotchApproximationLawBase)
             for n in ast.parse(open(p).read()).body:
@@ -191,6 +194,10 @@ class ClassTr:
             return lit(n.value)
         if isinstance(n, ast.Name):
             if n.id in env:
+                if env[n.id] in ('@none', '@dead'):
+                    raise Unsupported('use of %s (%s)' % (n.id, {'@none': 'fixed to None', '@dead': 'untranslatable local'}[env[n.id]]))
+                if env[n.id].startswith('@local:'):     # a local function passed as a value (e.g. to integrate.quad)
+                    return env[n.id][7:]
                 return env[n.id]
             if n.id in self.modconsts:
                 return lit(self.modconsts[n.id])
@@ -225,9 +232,27 @@ class ClassTr:
             return '(%s %s %s)' % (self.expr(n.left, env), op, self.expr(n.right, env))
         if isinstance(n, ast.Call):
             return self.call(n, env)
+        if isinstance(n, ast.IfExp) and self._none_test(n.test, env) is not None:
+            return self.expr(n.body if self._none_test(n.test, env) else n.orelse, env)
         if isinstance(n, ast.IfExp):
             return '(if %s then %s else %s)' % (self.cond(n.test, env), self.expr(n.body, env), self.expr(n.orelse, env))
+        if isinstance(n, ast.Lambda):
+            a = n.args
+            if a.vararg or a.kwarg or a.kwonlyargs or a.defaults or a.posonlyargs or not a.args:
+                raise Unsupported('lambda signature ' + ast.unparse(n)[:60])
+            env2 = dict(env)
+            for x in a.args:
+                env2[x.arg] = ident(x.arg)
+            return '(fun %s => %s)' % (' '.join(ident(x.arg) for x in a.args), self.expr(n.body, env2))
         raise Unsupported('expression ' + ast.unparse(n)[:80])
+
+    def _none_test(self, t, env):
+        """`p is None` / `p is not None` on a parameter: True/False when statically known, else None."""
+        if isinstance(t, ast.Compare) and len(t.ops) == 1 and isinstance(t.ops[0], (ast.Is, ast.IsNot)) \
+                and isinstance(t.left, ast.Name) and t.left.id in env \
+                and isinstance(t.comparators[0], ast.Constant) and t.comparators[0].value is None:
+            return (env[t.left.id] == '@none') == isinstance(t.ops[0], ast.Is)
+        return None
 
     def cond(self, c, env):
         if isinstance(c, ast.Compare) and len(c.ops) == 1:
@@ -297,6 +322,21 @@ class ClassTr:
                     b = self.expr(n.args[0], env)
                     return '(if Req_EM_T %s 0 then 1 else / (%s ^ %d))' % (b, b, x.operand.value)
             raise Unsupported('np.%s call %s' % (f.attr, ast.unparse(n)[:60]))
+        if isinstance(f, ast.Attribute) and isinstance(f.value, ast.Name) and f.value.id == 'norm' and f.attr in ('cdf', 'pdf'):
+            # scipy.stats.norm.cdf/pdf(x, loc=0, scale=1)  (PL.Strength.Normal: norm_cdf, norm_pdf)
+            if not 1 <= len(n.args) <= 3 or not set(kw) <= {'loc', 'scale'} or len(n.args) - 1 + len(kw) > 2:
+                raise Unsupported('norm.%s call %s' % (f.attr, ast.unparse(n)[:60]))
+            pos = [self.expr(a, env) for a in n.args]
+            loc = pos[1] if len(pos) > 1 else (self.expr(kw['loc'], env) if 'loc' in kw else '0')
+            if len(pos) > 1 and 'loc' in kw or len(pos) > 2 and 'scale' in kw:
+                raise Unsupported('norm.%s argument given twice' % f.attr)
+            scale = pos[2] if len(pos) > 2 else (self.expr(kw['scale'], env) if 'scale' in kw else '1')
+            return '(norm_%s %s %s %s)' % (f.attr, pos[0], loc, scale)
+        if isinstance(f, ast.Attribute) and isinstance(f.value, ast.Name) and f.value.id == 'integrate' and f.attr == 'quad':
+            # scipy.integrate.quad(f, a, b) idealised as (RInt f a b, 0); accuracy/subdivision hints do not change the ideal value
+            if len(n.args) != 3 or not set(kw) <= {'epsabs', 'epsrel', 'limit', 'points'}:
+                raise Unsupported('integrate.quad call ' + ast.unparse(n)[:60])
+            return '(quad_ideal %s %s %s)' % tuple(self.expr(a, env) for a in n.args)
         if isinstance(f, ast.Name) and f.id == 'abs' and len(n.args) == 1:
             return '(Rabs %s)' % self.expr(n.args[0], env)
         if isinstance(f, ast.Name) and f.id == 'float' and len(n.args) == 1:
@@ -328,7 +368,7 @@ class ClassTr:
         raise Unsupported('call ' + ast.unparse(n)[:80])
 
     # ---- statements
-    def body(self, stmts, env, lets):
+    def body(self, stmts, env, lets, need_return=True):
         """Translate a straight-line body; returns the Coq expression of the returned value."""
         for i, st in enumerate(stmts):
             if isinstance(st, ast.Assign) and len(st.targets) == 1 and isinstance(st.targets[0], ast.Subscript):
@@ -341,10 +381,31 @@ class ClassTr:
                     env[t.value.id] = nm
                     continue
                 raise Unsupported('assignment ' + ast.unparse(st)[:70])
+            if isinstance(st, ast.AugAssign) and isinstance(st.target, ast.Name):
+                op = {ast.Add: '+', ast.Sub: '-', ast.Mult: '*', ast.Div: '/'}.get(type(st.op))
+                if op is None:
+                    raise Unsupported('augmented assignment ' + ast.unparse(st)[:60])
+                v = '(%s %s %s)' % (self.expr(st.target, env), op, self.expr(st.value, env))
+                nm = ident(st.target.id)
+                lets.append('let %s := %s in' % (nm, v))
+                env[st.target.id] = nm
+                continue
+            if isinstance(st, ast.If) and self._none_test(st.test, env) is not None:
+                # `if p is None:` on an optional parameter: resolved statically (p fixed to None by the spec, or a real argument)
+                taken = st.body if self._none_test(st.test, env) else st.orelse
+                if self.body(taken, env, lets, need_return=False) is not None:
+                    raise Unsupported('return inside `if ... is None` branch')
+                continue
             if isinstance(st, ast.Assign) and len(st.targets) == 1:
                 t = st.targets[0]
                 if isinstance(t, ast.Name):
-                    v = self.expr(st.value, env)
+                    try:
+                        v = self.expr(st.value, env)
+                    except Unsupported:
+                        if not self.allow_dead:
+                            raise
+                        env[t.id] = '@dead'      # any later read of the name by translated code raises Unsupported
+                        continue
                     nm = ident(t.id)
                     lets.append('let %s := %s in' % (nm, v))
                     env[t.id] = nm
@@ -429,6 +490,8 @@ class ClassTr:
                     return '(' + ', '.join(self.expr(x, env) for x in v.elts) + ')'
                 return self.expr(v, env)
             raise Unsupported('statement ' + ast.unparse(st)[:70])
+        if not need_return:
+            return None
         raise Unsupported('no return statement')
 
     def body_nr(self, stmts, env, lets):
@@ -454,6 +517,10 @@ class ClassTr:
                [a.arg for a in fn.args.kwonlyargs if a.arg not in self.drop_args]
         args = [a for a in args if a not in self.drop_args]
         env = {a: ident(a) for a in args}
+        for a in args:
+            if a in self.none_args:
+                env[a] = '@none'
+        args = [a for a in args if a not in self.none_args]
         lets = ['let %s := %s in' % (self.attr_name(a), e) for a, e in self.attr_lets]
         ret = self.body(strip_doc(fn.body), env, lets)
         params = [ident(p) for p in self.ctor_params] + [ident(a) for a in args]
@@ -472,7 +539,7 @@ def translate_module(src_path, items, requires=()):
     tree = ast.parse(open(src_path).read())
     out = HEADER % os.path.relpath(src_path, '/')
     for r in requires:
-        out += 'From PLgen Require Import %s.\n' % r
+        out += ('From PL Require Import %s.\n' % r[3:]) if r.startswith('PL.') else ('From PLgen Require Import %s.\n' % r)
     sigs = {}
     for it in items:
         it = dict(it)
